@@ -70,8 +70,8 @@ func (x *Exec) call(fr *Frame, st *State, ci ssa.CallInstruction) []string {
 	if r, handled := x.specialCall(fr, st, ci, key, fn, args); handled {
 		return r
 	}
-	if fc, ok := x.db.Funcs[key]; ok && !(fr.contract != nil && fr.contract.Inline[fc.Name]) {
-		if !(x.mode == "lemma" && fn != nil && fn.Blocks != nil && !fc.Extern) {
+	if fc, ok := x.db.Funcs[key]; ok && !(fr.contract != nil && fr.contract.Inline[fc.Name]) && !(fn != nil && (x.lemmaInline[fn.Name()] || (x.topC != nil && x.topC.Inline[fn.Name()]))) {
+		if !(x.mode == "lemma" && fn != nil && fn.Blocks != nil && !fc.Extern && fc.Trusted == "") {
 			return x.callByContract(fr, st, ci, fc, fn, args, argTypes, sig)
 		}
 	}
